@@ -100,7 +100,7 @@ def main():
         },
         "engines": [{"name": "vrun", "path": "/verif/cmd/vrun", "serves_properties": sorted(CHECKS), "kind_free_text": "orchestrator: rebuilds the monitor worker (/verif/worker, tag verif) against /repo, shards deterministic workloads over 16 child processes, merges monitor observations, matches known findings, writes evidence"}],
         "checks": checks,
-        "notes": "Technique family: runtime monitoring and sanitizers. Known findings and repaired defects: /verif/known_findings.txt (4 known, all C08; 30 fixed). Seeded changes used to validate the monitors: /verif/seeded/ (339 changes by sub-agents in ten rounds, 6 behaviour-preserving refactorings as negative controls); catch matrix in DESIGN.md section 5. Cross-cutting stimuli added because of them: history disturbance and reader delivery kinds (worker/disturb.go), cold-start bursts in fresh processes (worker/coldstart.go).",
+        "notes": "Technique family: runtime monitoring and sanitizers. Known findings and repaired defects: /verif/known_findings.txt (6 known: five C08, one C05; 35 fixed). Seeded changes used to validate the monitors: /verif/seeded/ (339 changes by sub-agents in ten rounds, 6 behaviour-preserving refactorings as negative controls); catch matrix in DESIGN.md section 5. Cross-cutting stimuli added because of them: history disturbance and reader delivery kinds (worker/disturb.go), cold-start bursts in fresh processes (worker/coldstart.go).",
         "not_applicable": na,
     }
     json.dump(m, open(os.path.join(HERE, "MANIFEST.json"), "w"), indent=1)
